@@ -428,7 +428,7 @@ func init() {
 	lib.Register(&lib.Property{
 		ID:          "C17",
 		Level:       "exploration",
-		Rule:        "patches (plain and optimized; NONE/GZIP/BROTLI) over 3..9 new files mixing series kinds (patched = rsync data+ranges or bsdiff, whole-file copy, rename, brand-new, empty) in shuffled order; ALL 2^n whitelists for n <= 8, otherwise empty, full, singletons, complements of singletons and 64 random subsets; plus the nil whitelist and stop-at-every-3rd-checkpoint/resume on the same patcher. Monitors: a recording bowl around the fresh bowl (GetWriter/Transpose per index must equal the whitelist exactly), GetTouchedFiles, byte comparison of every whitelisted file, a recording target pool whose accesses must be a subset of the old files referenced by whitelisted series in the independently decoded patch (no access at all for the empty whitelist). distinct = distinct (file count, kind order, optimized, algorithm)",
+		Rule:        "patches (plain and optimized; NONE/GZIP/BROTLI) over 3..9 new files mixing series kinds (patched = rsync data+ranges or bsdiff, whole-file copy, rename, brand-new, empty) in shuffled order; ALL 2^n whitelists for n <= 8, otherwise empty, full, singletons, complements of singletons and 64 random subsets; plus the nil whitelist and stop-at-every-3rd-checkpoint/resume on the same patcher. Monitors: a recording bowl around the fresh bowl (GetWriter/Transpose per index must equal the whitelist exactly), GetTouchedFiles, byte comparison of every whitelisted file, a recording target pool (in odd cases over a pool that hands a just-used reader back at an arbitrary position) whose accesses must be a subset of the old files referenced by whitelisted series in the independently decoded patch (no access at all for the empty whitelist). distinct = distinct (file count, kind order, optimized, algorithm)",
 		Assumptions: []string{"a file resumed after a stop may legitimately ask the bowl for its writer again"},
 		Cases:       c17Cases,
 		Run:         c17Run,
